@@ -100,6 +100,16 @@ def run_case(case):
     nreads = rclock.limit_reads
     evals = 1
     nt = 0
+    # A deadline that passes while the last step is being computed can only be reported (status TimeLimit, as the
+    # statement requires for a deadline expiring "at any moment") if the clock is consulted once more after that
+    # step and before the run is declared finished.
+    if not capped and natural != "IterationLimit" and L > 0:
+        lim = [rd for rd in rclock.reads if rd[0] == "limit"]
+        bump("natural_endings_checked")
+        if not lim or lim[-1][3] != L - 1 or lim[-1][2] != "_check_terminate":
+            bad("deadline-not-checked-at-end", "the run ended %s after %d steps without consulting the deadline after its "
+                "last step (last deadline read belongs to step %s, made from %s): a deadline passing during the last step "
+                "would go unreported" % (natural, L, lim[-1][3] if lim else None, lim[-1][2] if lim else None))
     # ---------------- iteration budgets
     kmax = L if capped else L + 1
     for k in range(0, kmax + 1):
@@ -213,7 +223,7 @@ def finalize(agg, tier):
                 "inside the Newton loop of the exact controller) is executed; every (base run, k) and (base run, j) is "
                 "distinct by construction and counted as non-trivial when all comparisons were carried out" % CAP,
         "floors": {"base_runs": 20, "iteration_budgets_enumerated": 300, "deadline_positions_enumerated": 500,
-                   "deadline_inside_newton_loop": 100, "aborted_steps_observed": 50},
+                   "deadline_inside_newton_loop": 100, "aborted_steps_observed": 50, "natural_endings_checked": 10},
         "exhaustive": True,
         "assumptions": ["the deadline is driven by a virtual clock substituted for time.time inside pygradflow.timer; "
                         "display is off so that the display timer does not interleave reads",
